@@ -51,6 +51,12 @@ class RunAlwaysSpy(Spy):
     run_always = True
 
 
+class SwitchedOffSpy(Spy):
+    """carries the marker attribute, switched off: an unmarked algo like any other"""
+
+    run_always = False
+
+
 class Chaos(SimAlgo):
     """legal user actions that perturb the schedule from inside Backtest.run: redundant
     root.update(now), refreshing reads, full observations, external flows."""
@@ -175,6 +181,8 @@ def build(bt, spec, sim):
     a = spec["a"]
     kw = dict(spec.get("kw", {}))
     if a == "Spy":
+        if spec.get("run_always") == "off":
+            return SwitchedOffSpy(sim, spec)
         return (RunAlwaysSpy if spec.get("run_always") else Spy)(sim, spec)
     if a == "Chaos":
         return Chaos(sim, spec)
